@@ -24,7 +24,7 @@ class H:
         return 'kani_verif::%s::%s' % (self.mod, self.name)
 
     def timeout(self, tier):
-        return int(os.environ.get('VERIF_HARNESS_TIMEOUT', '2400' if tier == 'thorough' else '1500'))
+        return int(os.environ.get('VERIF_HARNESS_TIMEOUT', '3600' if tier == 'thorough' else '1500'))
 
     def line(self):
         attrs = ' '.join((['#[cfg(not(feature = "alloc"))]'] if 'nodefault' in self.flags else []) + self.attrs)
@@ -369,6 +369,19 @@ add('k1_mem', 'default_is_empty_na', 'default_is_empty_h()', props=['C19'], tier
 
 # ---------------------------------------------------------------------------------------------------
 MODULES = ['k1_lib', 'k2_insert', 'k2_remove', 'k2_range', 'k2_misc', 'k1_handles', 'k1_types', 'k2_lazy', 'k1_rawparts', 'k1_heap', 'k1_misc', 'k1_mem', 'k1_views', 't_sendsync', 'k1_loops']
+
+
+BDOM = 'reduced state domain len <= cap <= 128 (non power-of-two element size: CBMC bit-blasts the size multiplications; the full 2^20 domain exceeds the time limit for this operation)'
+for h in HS:
+    if h.call and h.mod in ('k2_range', 'k2_lazy') and any(('<%s>' % TY[z]) in h.call for z in SLOW):
+        h.call = '{ set_domain(8); %s }' % h.call
+        h.bound = (h.bound + '; ' if h.bound else '') + BDOM
+        h.kind = 'bounded' if h.kind == 'full' else h.kind
+        h.cost = max(20, h.cost // 10)
+for h in HS:
+    if h.name in ('insert_lazy_clone_tgt_e3',):
+        h.call = '{ set_domain(8); %s }' % h.call
+        h.bound = BDOM; h.kind = 'bounded'; h.cost = 30
 
 
 def write_instances(kv_dir, selected):
